@@ -290,8 +290,22 @@ def _bytes_of(eng, st, v):
     return v.b if isinstance(v, BytesV) else None
 
 
-def _mkslice(b):
-    return RefV(Cell(BytesV(bytes(b)), "bytes"))
+def _mkslice(b, off=None):
+    return RefV(Cell(BytesV(bytes(b), off), "bytes"))
+
+
+def _bytesv_of(eng, st, v):
+    v = eng.resolve(st, v)
+    n = 0
+    while isinstance(v, RefV) and n < 6:
+        v = eng.resolve(st, load(Loc(v.cell, v.path)))
+        n += 1
+    return v if isinstance(v, BytesV) else None
+
+
+def _off(eng, st, v, delta=0):
+    bv = _bytesv_of(eng, st, v)
+    return None if bv is None or bv.off is None else bv.off + delta
 
 
 def _iter_data(st, it):
@@ -305,6 +319,10 @@ def m_slice_iter(eng, st, fr, t, name, rname, args):
     b = _bytes_of(eng, st, args[0])
     if b is None:
         return NotImplemented
+    off = _off(eng, st, args[0])
+    amb = st.extra.get("bytes")
+    if off is not None and amb is not None and off + len(b) == len(amb) and list(amb[off:]) == list(b):
+        return AggV(BYTES_ITER, {0: K(off)})
     return AggV(BYTES_ITER, {0: K(0), 1: BytesV(b)})
 
 
@@ -469,7 +487,8 @@ def m_split_at(eng, st, fr, t, name, rname, args):
         st.outcome = "panic"
         st.trace.append(Event("panic", name, None, (), fr.bi, t.get("line"), len(st.frames), fr.body.npath))
         return [(st, TOP)]
-    return AggV("tuple", {0: _mkslice(b[: k.v]), 1: _mkslice(b[k.v:])})
+    o = _off(eng, st, args[0])
+    return AggV("tuple", {0: _mkslice(b[: k.v], o), 1: _mkslice(b[k.v:], None if o is None else o + k.v)})
 
 
 def m_slice_index(eng, st, fr, t, name, rname, args):
@@ -492,7 +511,7 @@ def m_slice_index(eng, st, fr, t, name, rname, args):
         st.outcome = "panic"
         st.trace.append(Event("panic", name, None, (), fr.bi, t.get("line"), len(st.frames), fr.body.npath))
         return [(st, TOP)]
-    return _mkslice(b[lo:hi])
+    return _mkslice(b[lo:hi], _off(eng, st, args[0], lo))
 
 
 def m_bytes_eq(eng, st, fr, t, name, rname, args):
@@ -526,7 +545,7 @@ def m_as_slice(eng, st, fr, t, name, rname, args):
     if it is None:
         return NotImplemented
     data = _iter_data(st, it)
-    return _mkslice(data[it.fields[0].v:])
+    return _mkslice(data[it.fields[0].v:], it.fields[0].v if it.fields.get(1) is None else None)
 
 
 RANGE = "core::ops::Range"
@@ -690,7 +709,7 @@ def m_slice_get(eng, st, fr, t, name, rname, args):
             return NotImplemented
         if lo > hi or hi > len(a):
             return mk_option(None)
-        return mk_option(_mkslice(a[lo:hi]))
+        return mk_option(_mkslice(a[lo:hi], _off(eng, st, args[0], lo)))
     if a is None or not (isinstance(i, K) and isinstance(i.v, int)):
         return NotImplemented
     return mk_option(RefV(Cell(K(a[i.v]), "byte@%d" % i.v))) if i.v < len(a) else mk_option(None)
@@ -717,7 +736,7 @@ def m_split_first(eng, st, fr, t, name, rname, args):
         return NotImplemented
     if not a:
         return mk_option(None)
-    return mk_option(AggV("tuple", {0: RefV(Cell(K(a[0]), "byte@0")), 1: _mkslice(a[1:])}))
+    return mk_option(AggV("tuple", {0: RefV(Cell(K(a[0]), "byte@0")), 1: _mkslice(a[1:], _off(eng, st, args[0], 1))}))
 
 
 def struct_eq(eng, st, a, b, depth=0):
@@ -967,3 +986,53 @@ def outcome_inner(r):
     if r.outcome != "return":
         return r.outcome
     return ",".join(sorted(err_codes(r.retval)))
+
+
+# ---- generic item-sequence iterator models (sa/itermodels.py) ------------------------------------------------------
+def _install_itermodels():
+    import sys
+    from . import itermodels as IT
+    me = sys.modules[__name__]
+    adaptors, consumers, take_while, _wf = IT.build(me)
+    for k, f in adaptors.items():
+        FOLD_MODELS[k] = _or(FOLD_MODELS[k], f) if k in FOLD_MODELS else f
+    for k, f in consumers.items():
+        FOLD_MODELS[k] = _or(FOLD_MODELS[k], f) if k in FOLD_MODELS else f
+    k = "core::iter::Iterator::take_while"
+    FOLD_MODELS[k] = _or(FOLD_MODELS[k], take_while) if k in FOLD_MODELS else take_while
+    k = "core::iter::IntoIterator::into_iter"
+    prev = FOLD_MODELS.get(k)
+
+    def into_iter(eng, st, fr, t, name, rname, args):
+        v = eng.resolve(st, args[0])
+        if isinstance(v, AggV) and v.kind == IT.ITEMS:
+            return v
+        return prev(eng, st, fr, t, name, rname, args) if prev else NotImplemented
+    FOLD_MODELS[k] = into_iter
+    # for_each over an items iterator
+    k = "core::iter::Iterator::for_each"
+    prevfe = FOLD_MODELS.get(k)
+
+    def for_each(eng, st, fr, t, name, rname, args):
+        v = IT._deref(eng, st, args[0])
+        if isinstance(v, AggV) and v.kind == IT.ITEMS:
+            items = v.fields[1].items[v.fields[0].v:]
+            out = []
+            work = [(st, 0)]
+            while work:
+                s, i = work.pop()
+                if s.outcome is not None:
+                    out.append((s, TOP))
+                    continue
+                if i >= len(items):
+                    out.append((s, UNIT))
+                    continue
+                f2 = s.frames[-1]
+                for s2, _ in eng.call_closure(s, f2, eng.operand(s, f2, t["args"][1]), [items[i]], t):
+                    work.append((s2, i + 1))
+            return out
+        return prevfe(eng, st, fr, t, name, rname, args) if prevfe else NotImplemented
+    FOLD_MODELS[k] = for_each
+
+
+_install_itermodels()
